@@ -113,6 +113,8 @@ def run(ctx):
     from .cell_common import canon
     P1 = ("param", 1)
     ELEM_K = ("elem", P1, KSYM)
+    PARENT_ = "a5::core::serialization::cell_to_parent"
+    GETRES_ = "a5::core::serialization::get_resolution"
 
     def loop_map(l):
         if l.source is None or l.item is None:
@@ -143,6 +145,16 @@ def run(ctx):
         def res(y, d=0):
             if not isinstance(y, tuple) or not y or d > 40:
                 return y
+            # the canonical form of an input cell (decoded and re-encoded at its own resolution) is that cell
+            z = y
+            if z[0] == "payload" and z[1] == "Ok":
+                z = z[2]
+            if z[0] == "call" and z[1] == PARENT_ and len(z[2]) == 2:
+                tg = z[2][1]
+                if tg[0] == "agg" and isinstance(tg[2], str) and tg[2].endswith("::Some") and len(tg[3]) == 1:
+                    g = tg[3][0]
+                    if g[0] == "call" and g[1] == GETRES_ and len(g[2]) == 1 and res(g[2][0], d + 1) == res(z[2][0], d + 1):
+                        return res(z[2][0], d + 1)
             if y[0] == "elem":
                 k2 = local_key_of(y[1])
                 co, kk = linear(y[2])
